@@ -424,6 +424,95 @@ pub fn judge(sc: &Scenario) -> Judgement {
             }
         }
     }
+    // (c0) the ranges of published diagnostics: the byte ranges of a fresh analysis of a text the
+    // client wrote, converted with the client's own position arithmetic, must be the published
+    // positions. Judged only when the messages identify the version (same messages in the same
+    // order) so that content (C01) and ordering (C20) are not what differs.
+    {
+        use spl_frontend::ErrorContainer;
+        let mut by_uri: std::collections::BTreeMap<&str, Vec<&String>> = Default::default();
+        for w in &want.writes {
+            by_uri.entry(w.0.as_str()).or_default().push(&w.1);
+        }
+        let mut cache: std::collections::HashMap<&String, Vec<(String, [u32; 4])>> = Default::default();
+        for f in &rec.frames {
+            let RxMsg::Notification { method, params } = &f.msg else { continue };
+            if method != "textDocument/publishDiagnostics" {
+                continue;
+            }
+            let uri = params.get("uri").and_then(|u| u.as_str()).unwrap_or("");
+            let Some(diags) = params.get("diagnostics").and_then(|d| d.as_array()) else { continue };
+            if diags.is_empty() {
+                continue;
+            }
+            let got: Vec<(String, [u32; 4])> = diags
+                .iter()
+                .filter_map(|d| Some((d.get("message")?.as_str()?.to_string(), range_of(d)?)))
+                .collect();
+            let Some(texts) = by_uri.get(uri) else { continue };
+            let mut same_messages = false;
+            let mut same_ranges = false;
+            let mut example: Option<(&String, Vec<(String, [u32; 4])>)> = None;
+            for t in texts.iter().rev() {
+                let want_d = cache.entry(*t).or_insert_with(|| {
+                    tokio::sim::catch(|| {
+                        let doc = spl_frontend::AnalyzedSource::new((*t).clone());
+                        doc.errors()
+                            .iter()
+                            .map(|e| {
+                                let (sl, sc) = position_at(t, e.0.start.min(t.len()));
+                                let (el, ec) = position_at(t, e.0.end.min(t.len()));
+                                (e.1.to_string(), [sl, sc, el, ec])
+                            })
+                            .collect()
+                    })
+                    .unwrap_or_default()
+                });
+                if want_d.len() == got.len() && want_d.iter().zip(got.iter()).all(|(a, b)| a.0 == b.0) {
+                    same_messages = true;
+                    if want_d.iter().zip(got.iter()).all(|(a, b)| a.1 == b.1) {
+                        same_ranges = true;
+                        break;
+                    }
+                    if example.is_none() {
+                        example = Some((*t, want_d.clone()));
+                    }
+                }
+            }
+            if same_messages {
+                j.comparisons += 1;
+                j.probe("published diagnostic ranges checked against the replica", got.len() as u64);
+            }
+            if same_messages && !same_ranges {
+                let (t, want_d) = example.unwrap();
+                let k = want_d.iter().zip(got.iter()).position(|(a, b)| a.1 != b.1).unwrap_or(0);
+                let bs = offset_at(t, want_d[k].1[0], want_d[k].1[1]);
+                let line_start = offset_at(t, want_d[k].1[0], 0);
+                let feature = if t[line_start..bs.max(line_start)].chars().any(|c| c.len_utf16() == 2) {
+                    "astral-left-of-position"
+                } else if t[..bs].contains('\r') {
+                    "cr-before-position"
+                } else if !t[..bs].is_ascii() {
+                    "non-ascii-before-position"
+                } else {
+                    "plain"
+                };
+                j.violate(
+                    ID,
+                    "diagnostic-range",
+                    format!("diagnostic-range {feature}"),
+                    format!(
+                        "publishDiagnostics for {uri}: diagnostic #{k} ({}) is published at {:?}, in the client's text its range is {:?} (text {})",
+                        got[k].0.trim(),
+                        got[k].1,
+                        want_d[k].1,
+                        quote(t)
+                    ),
+                );
+                return j;
+            }
+        }
+    }
     // (c1) reported ranges, interpreted with the client's own position arithmetic
     let mut follow: Vec<(usize, ClientOp, [u32; 4])> = vec![]; // (after script index, request, expected range)
     let mut next_id = 100_000;
